@@ -59,6 +59,9 @@ def gen_cases(tier, seed):
                 "reject_exc": rng.choice(["PermissionError", "FileNotFoundError"]),
                 "reject_create": (not weak) and rng.random() < 0.03,
                 "cancel": None if rng.random() < 0.9 else [rng.choice(["S", "D"]), rng.randrange(1, 12)]}
+        if rng.random() < 0.25:
+            # the receiver's own default checksum type for this sender differs from the one the Metadata PDU announces (which decides)
+            cfg["rc_at_dst"] = {"crc_type": rng.choice([k for k in ("null", "null", "modular", "crc32", "crc32c") if k != cfg["cks"]])}
         if rng.random() < 0.1:
             case["busy_put"] = rng.randrange(0, 10)  # a (refused) put request towards another entity while the transfer is running
         if rng.random() < 0.2:
@@ -66,6 +69,16 @@ def gen_cases(tier, seed):
             # the same or new content each time
             case["repeat"] = [rng.choice(["same", "same", "new", "shorter"]) for _ in range(rng.choice([1, 2, 3]))]
         cases.append(case)
+    # weak checksums (null / modular, acknowledged mode, loss only) with the first Metadata PDU always lost: nothing but the lost-segment
+    # bookkeeping stands between a hole in the file and a success report
+    for i in range(500 if tier == "quick" else 10000):
+        seg = rng.choice([3, 4, 8])
+        cfg = {"mode": "ack", "closure": rng.random() < 0.5, "imm_nak": rng.random() < 0.7, "cks": rng.choice(["null", "null", "modular"]), "crc": rng.random() < 0.3,
+               "seg": seg, "maxpkt": 128, "size": rng.choice([2 * seg, 3 * seg, 3 * seg + 1, 5 * seg]), "content": rng.choice([0, 1, 2, 3]), "dest": rng.choice(["file", "existing"]),
+               "ack_limit": 4, "nak_limit": 4, "check_limit": 2, "disp": False}
+        cases.append({"cfg": cfg, "seed": seed * 1_000_003 + 5_000_000 + i, "p": {"drop": rng.choice([0.15, 0.25, 0.35]), "delay": 0.05}, "rejects": [], "reject_exc": "PermissionError",
+                      "reject_create": False, "cancel": None, "md_lost": True,
+                      "pacing": rng.choice([{}, {"src_calls": 3}, {"src_calls": 5}, {"src_calls": 2, "dst_calls": 2}])})
     # crafted corruption: four bytes of one segment are replaced (in every copy that crosses the link) such that the file checksum differs
     # from the true one in chosen bytes only - a comparison which looks at part of the checksum would accept the file
     for cks in ("crc32", "crc32c"):
@@ -79,6 +92,17 @@ def gen_cases(tier, seed):
 
 
 PARTIAL_DIFFS = ["00000001", "000000ff", "0000ffff", "00ffffff", "01000000", "ff000000", "ffff0000", "ffffff00", "00ffff00", "ff0000ff", "0000a500", "005a0000"]
+
+
+class MdLostPlan(RandomPlan):
+    """RandomPlan whose first Metadata PDU is always lost."""
+
+    def on_emit(self, idx, item):
+        if item["d"].get("kind") == "MD" and not getattr(self, "md_dropped", False):
+            self.md_dropped = True
+            self.applied.append((idx, "drop", wire.short(item["d"]), item["side"]))
+            return []
+        return super().on_emit(idx, item)
 
 
 class CraftPlan(Plan):
@@ -117,6 +141,8 @@ def run_case(case):
 
         w.dst_fs.fault = fault
         plan = RandomPlan(case["seed"], case["p"])
+        if case.get("md_lost"):
+            plan = MdLostPlan(case["seed"], case["p"])
         if case.get("partial"):
             pc = case["partial"]
             window = models.crafted_window(cfg["cks"], w.data, pc["off"], bytes.fromhex(pc["diff"]))
@@ -128,7 +154,7 @@ def run_case(case):
             actions[case["cancel"][1]] = [("cancel", case["cancel"][0])]
         if case.get("busy_put") is not None:
             actions.setdefault(case["busy_put"], []).insert(0, ("put_third",))
-        r = Runner(w, plan=plan, max_expiries=40, max_rounds=3000, actions=actions)
+        r = Runner(w, plan=plan, max_expiries=40, max_rounds=3000, actions=actions, pacing=case.get("pacing"))
         internal = None
         applied = []
         try:
@@ -171,6 +197,7 @@ def run_case(case):
             "checksum_collisions": mon.collisions, "outcome_" + outcome: 1,
             "undeliverable_pdu_crc": r.unparsable, "cancel_sprinkled": int(bool(case["cancel"])),
             "internal_errors_not_judged_here": int(internal is not None), "repeated_transfers": len(case.get("repeat") or []),
+            "receiver_mib_checksum_type_differs": int(bool(cfg.get("rc_at_dst"))),
         }
         if case.get("partial"):
             obs["crafted_partial_checksum_collisions_delivered"] = int(nflip > 0)
@@ -187,5 +214,5 @@ def run_case(case):
                 "keys": {"step_pairs": [f"{a}|{b}" for a, b in r.steps_seen]}}
 
 
-REQUIRED = {"crafted_partial_checksum_collisions_delivered": 100, "crafted_partial_collisions_reported_unsuccessful": 100, "success_reports_after_fault": 50, "bit_flips": 50, "writes_rejected": 20, "success_after_flip_or_rejection": 5,
+REQUIRED = {"receiver_mib_checksum_type_differs": 200, "crafted_partial_checksum_collisions_delivered": 100, "crafted_partial_collisions_reported_unsuccessful": 100, "success_reports_after_fault": 50, "bit_flips": 50, "writes_rejected": 20, "success_after_flip_or_rejection": 5,
             "judged_receiver-indication": 20, "judged_finished-pdu": 20, "judged_sender-indication": 20}
